@@ -95,9 +95,6 @@
 #ifndef VH_HAVE_hypot3
     #define VH_HAVE_hypot3 1
 #endif
-#ifndef VH_HAVE_fma
-    #define VH_HAVE_fma 1
-#endif
 #ifndef VH_HAVE_sqrt
     #define VH_HAVE_sqrt 1
 #endif
